@@ -12,7 +12,7 @@ COMMON="-g -I$REPO -I$V/harness -DENABLE_LOCALES -Wno-unused-function"
 case $FL in
   plain)  CF="-O1 $COMMON" ;;
   asan)   CF="-O1 -fsanitize=address,undefined -fno-sanitize=pointer-overflow -fno-sanitize-recover=undefined -fno-omit-frame-pointer -DVD_ASAN $COMMON" ;;
-  limits) CF="-O1 -DCJSON_NESTING_LIMIT=4 -DCJSON_CIRCULAR_LIMIT=2 -DVD_LIMITS $COMMON" ;;
+  limits) CF="-O1 -DCJSON_NESTING_LIMIT=4 -DCJSON_CIRCULAR_LIMIT=1 -DVD_LIMITS $COMMON" ;;
   *) echo "unknown flavour $FL" >&2; exit 2 ;;
 esac
 for f in $REPO/cJSON.c $REPO/cJSON_Utils.c; do
